@@ -98,3 +98,35 @@ func c15OverlapHarness(np, maxLen int) {
 func VerifC15Overlap2()     { c15OverlapHarness(2, 2) }
 func VerifC15Overlap3()     { c15OverlapHarness(3, 2) }
 func VerifC15Overlap2Deep() { c15OverlapHarness(2, 3) }
+
+// a mapping of a whole output onto the whole input next to a mapping onto one of its fields (the empty path is a
+// prefix of every path): rejected at compile time in both declaration orders
+func VerifC15OverlapWhole() {
+	ctx := context.Background()
+	wf := NewWorkflow[map[string]any, map[string]any]()
+	id := func(ctx context.Context, in map[string]any) (map[string]any, error) { return in, nil }
+	wf.AddLambdaNode("m", InvokableLambda(id)).AddInput(START)
+	n := wf.AddLambdaNode("n", InvokableLambda(id))
+	wholeFirst := vchoose("wholeFirst", 2) == 1
+	fromField := vchoose("fromField", 2) == 1 // the whole-input mapping may still select a source field
+	whole := func() {
+		if fromField {
+			n.AddInput("m", FromField("x"))
+		} else {
+			n.AddInput("m")
+		}
+	}
+	field := func() {
+		n.AddInputWithOptions(START, []*FieldMapping{MapFields("x", "a")}, WithNoDirectDependency())
+	}
+	if wholeFirst {
+		whole()
+		field()
+	} else {
+		field()
+		whole()
+	}
+	wf.End().AddInput("n")
+	_, err := wf.Compile(ctx)
+	vassert(err != nil, "a whole-input mapping together with a field mapping is rejected at compile time whatever the declaration order")
+}
